@@ -89,8 +89,11 @@ pub fn run_seq(case: &Case, dir: PathBuf) -> Outcome {
         }
     }
     hash = crate::rng::mix(hash ^ ex.model.digest());
-    for (k, v) in &ex.stats.c {
-        hash = crate::rng::mix(hash ^ crate::rng::hash_str(k) ^ *v);
+    if case.cfg.workers == 0 {
+        // with real (unscheduled) worker threads only API-level results are reproducible
+        for (k, v) in &ex.stats.c {
+            hash = crate::rng::mix(hash ^ crate::rng::hash_str(k) ^ *v);
+        }
     }
     ex.close();
     let writes = case.program.iter().filter(|o| o.is_write()).count();
